@@ -82,6 +82,15 @@ type Network struct {
 	keepOps   bool
 	// FirstFault is the event sequence number of the first disruptive fault.
 	FirstFault int64
+	paused     bool
+}
+
+// PauseFaults switches random fault injection off (during the set-up of a
+// scenario) and on again.
+func (nw *Network) PauseFaults(p bool) {
+	nw.mu.Lock()
+	nw.paused = p
+	nw.mu.Unlock()
 }
 
 // Of returns the network of simulation s.
@@ -165,6 +174,9 @@ func (nw *Network) nextOp(c *Conn, kind string, n int) string {
 	}
 	gapMean := nw.cfg.FaultGap
 	kinds := nw.cfg.FaultKind
+	if nw.paused {
+		gapMean = 0
+	}
 	nw.mu.Unlock()
 	if fault == "" && gapMean > 0 && len(kinds) > 0 && c.faultable {
 		// one decision per operation would make tapes long: count down
@@ -226,6 +238,7 @@ type half struct {
 	tap     []byte // every byte ever accepted
 	wmarks  []Mark // accepted offsets
 	rmarks  []Mark // consumed offsets
+	retmark []Mark // offset written when a Write call returned (Seq = moment of return)
 	rdOff   int
 }
 
@@ -276,6 +289,15 @@ func (c *Conn) Sent() ([]byte, []Mark) {
 	h.mu.Lock()
 	defer h.mu.Unlock()
 	return append([]byte(nil), h.tap...), append([]Mark(nil), h.wmarks...)
+}
+
+// WriteReturns relates, for each Write call of this side that returned
+// normally, the moment of the return to the stream offset reached.
+func (c *Conn) WriteReturns() []Mark {
+	h := c.wr
+	h.mu.Lock()
+	defer h.mu.Unlock()
+	return append([]Mark(nil), h.retmark...)
 }
 
 // ReadMarks returns the consumption marks of the bytes flowing to this side.
@@ -581,6 +603,9 @@ func (c *Conn) Write(p []byte) (int, error) {
 		return n, ErrReset
 	}
 	c.ioYield("net.Write.ret")
+	h.mu.Lock()
+	h.retmark = append(h.retmark, Mark{zzsim.Seq(), len(h.tap)})
+	h.mu.Unlock()
 	return n, nil
 }
 
